@@ -1420,6 +1420,11 @@ class Interp:
         if isinstance(op, ast.Sub):
             return Arr(d, a.poly - b.poly, mk, a.unit if a.unit is not None else b.unit)
         if isinstance(op, ast.Mult):
+            for x_, y_ in ((a, b), (b, a)):
+                if _is_boolean(x_.poly) and not x_.poly.is_const() and x_.ndim >= 1 and not _is_boolean(y_.poly) and _may_be_infinite(y_.poly):
+                    # a truth value used as a 0/1 factor of a term that can be infinite: over IEEE doubles 0 * inf is NaN, not 0 (a masked store selects; a product does not)
+                    self.findings.append(Finding('zero-times-inf', 'a truth value (%s) multiplies %s, which is infinite where the logarithm\'s argument vanishes: there False * inf is NaN, not 0'
+                                                 % (alg.show(x_.poly, 60), alg.show(y_.poly, 60)), node, (self.stack[-1].split(':')[0].replace('.', '/') + '.py') if self.stack else '?'))
             return Arr(d, a.poly * b.poly, mk, _umul(a.unit, b.unit))
         if isinstance(op, ast.Div):
             return Arr(d, a.poly * b.poly.pow(-1), mk, _umul(a.unit, _upow(b.unit, -1)))
@@ -3178,6 +3183,18 @@ def _is_boolean(p):
             if a[0] != 'ind' and not (a[0] == 'fn' and a[1] in ('any', 'all', 'loosely_close')):
                 return False
     return True
+
+
+def _may_be_infinite(p):
+    """does the term contain a logarithm of something that is not a positive constant (infinite where its argument vanishes), or the symbol for infinity"""
+    for a in p.atoms():
+        if a[0] == 'sym' and a[1] == 'INF':
+            return True
+        if a[0] == 'fn' and a[1] == 'ln' and a[2][0] == 'P':
+            q = Poly.from_key(a[2][1])
+            if not (q.is_const() and q.const_value() > 0):
+                return True
+    return False
 
 
 def _le(diff):
